@@ -44,3 +44,6 @@ Example C06_nonvacuous :
   running s = [("a", false); ("b", true)] /\ wfails s = [(0, 1)] /\ List.length (acks s) = 2
   /\ check_C06 {| c_max := 2; c_streams := streams; c_labels := ls; c_obs := run_obs 2 streams (init streams) ls |} = true.
 Proof. vm_compute. repeat split. Qed.
+
+(* the reader half of the property is checked on traces of the channel handlers (harness h_reader -mode c06) *)
+Require Verif.C06.RCheck.
